@@ -172,7 +172,7 @@ def run(ctx):
     if len(effects) < 6:
         raise AnalysisBroken('del_dochan: expected state-changing sites not found (%d)' % len(effects))
     for e in effects:
-        g = dd.guards(e) or []
+        g = dd.guards(e, fresh=False) or []      # the tests were made before any of these state changes
         lo = any(c.strip().k == 'bin' and c.strip().op == '<' and is_delnum(c.strip().args[0]) and c.strip().args[1].const == 0 and t is False for c, t in g)
         hi = False
         for c, t in g:
